@@ -349,15 +349,32 @@ def run(tier):
     for c, d in wrap_src:
         for w in WRAPS:
             winputs.append({"sql": w % d["sql"], "payload": d["payload"], "id": len(winputs)}); wmeta.append((c, d, w))
+    # flat operator chains (one tree level per operand although nothing is nested in the text): the payload among the
+    # first operands of a long OR / AND chain, in a select list sum, and something to find after the chain as well
+    kk = 150 if quick else 400
+    FLAT = [("SELECT a FROM t1 WHERE name = '' OR 1 = 1" + "".join(" OR c%d = %d" % (i, i) for i in range(kk)), ("TAUTOLOGY", "CRITICAL")),
+            ("SELECT a FROM t1 WHERE 'a' = 'a' AND b = 2" + "".join(" AND c%d = %d" % (i, i) for i in range(kk)), ("TAUTOLOGY", "CRITICAL")),
+            ("SELECT a FROM t1 WHERE SLEEP(5) > 0" + "".join(" OR c%d = %d" % (i, i) for i in range(kk)), ("TIME_BASED", "HIGH")),
+            ("SELECT LOAD_FILE('/etc/passwd')" + " || a" * kk + " FROM t1", ("OUT_OF_BAND", "CRITICAL")),
+            ("SELECT a FROM t1 WHERE b = 2" + "".join(" OR c%d = %d" % (i, i) for i in range(kk)) + " GROUP BY a HAVING 1 = 1", ("TAUTOLOGY", "CRITICAL")),
+            ("SELECT a, b FROM t1" + " UNION SELECT a, b FROM t2" * (kk // 2) + " UNION SELECT NULL, NULL FROM t3" + " UNION SELECT a, b FROM t2" * 3, ("UNION_BASED", "HIGH"))]
+    class _C(dict):
+        pass
+    for sql, exp in FLAT:
+        c = _C(payload="flat_chain", position="flat_chain", expected=list(exp), stmt=("raw",))
+        winputs.append({"sql": sql, "payload": {"pattern": exp[0], "severity": exp[1]}, "id": len(winputs)})
+        wmeta.append((c, {"sql": sql}, "%s"))
     wres = run_harness(winputs, rp, "wrapped") if winputs else []
     wbad, waccepted = [], 0
     for (c, d, w), wi, r in zip(wmeta, winputs, wres or []):
         if not r["accepted"]:
+            if c["position"] == "flat_chain":
+                wbad.append((c, wi, r, "rejected: a flat chain is not accepted", "flat chain " + wi["sql"][:40]))
             continue
         waccepted += 1
         fl = [f for f in check_result(r, tuple(c["expected"])) if f.startswith("missing")]
         if fl:
-            wbad.append((c, wi, r, fl[0], w))
+            wbad.append((c, wi, r, fl[0], w if c["position"] != "flat_chain" else "flat chain " + wi["sql"][:40]))
     rp.cov["wrapped_statements"] = {"run": len(winputs), "accepted": waccepted}
     rp.obligation("oracle: %d payload queries reported equally as the body of CREATE VIEW / MATERIALIZED VIEW / TABLE AS" % waccepted, not wbad)
     seen_w = set()
@@ -365,7 +382,7 @@ def run(tier):
         if w in seen_w:
             continue
         seen_w.add(w)
-        rp.violation({"kind": "oracle", "property": "C16", "input": {"sql": wi["sql"], "payload": wi["payload"]}, "failure": f, "wrapper": w % "<query>",
+        rp.violation({"kind": "oracle", "property": "C16", "input": {"sql": wi["sql"], "payload": wi["payload"]}, "failure": f, "wrapper": (w % "<query>") if "%s" in w else w,
                       "payload": c["payload"], "position": c["position"], "expected": c["expected"], "findings_low": r["runs"][0]["f"] if r.get("runs") else None,
                       "explanation": "the payload is reported when the query stands alone but not when the same query is the body of this statement"},
                      "oracle_wrapped_%d" % len(rp.violations))
